@@ -1,10 +1,13 @@
 #!/bin/bash
-# tools/runall.sh [tier]: run every check on the real tree (regenerates evidence); prints one line per check
+# tools/runall.sh [tier] [ID ...]: run every (or the given) check on the real tree (regenerates evidence); prints one line per check
 TIER=${1:-quick}
+shift
+IDS=${@:-C01 C02 C03 C04 C05 C06 C07 C08 C09 C10 C11 C12 C13 C14 C15 C16 C17 C18 C19 C20}
 cd "$(dirname "$0")/.."
-for id in C01 C02 C03 C04 C05 C06 C07 C08 C09 C10 C11 C12 C13 C14 C15 C16 C17 C18 C19 C20; do
+for id in $IDS; do
   s=$(date +%s)
   out=$(./check $id --tier $TIER 2>&1); rc=$?
   e=$(date +%s)
   echo "$id rc=$rc $((e-s))s $(echo "$out" | grep -c '^VIOLATION') violations $(echo "$out" | grep -c '^KNOWN-FINDING') known"
+  if [ $rc -ne 0 ]; then echo "$out" | grep -A1 '^VIOLATION' | head -6; echo "$out" | tail -3; fi
 done
